@@ -1865,6 +1865,17 @@ impl Db {
 		self.inner.store_err(Err(e))
 	}
 
+	/// Verification hook: raw structural dump of a column (tables, indexes, ref counts, btree
+	/// header). Meaningful when the pipeline is drained.
+	#[cfg(parity_db_verif)]
+	pub fn verif_dump(&self, col: ColId) -> Result<crate::verif::ColumnDump> {
+		let _lock = self.inner.iteration_lock.lock();
+		match &self.inner.columns[col as usize] {
+			Column::Hash(column) => column.verif_dump(&self.inner.log),
+			Column::Tree(column) => column.verif_dump(self.inner.log.overlays()),
+		}
+	}
+
 	/// Verification hook: sizes of the in-memory pipeline stages
 	/// (queued commits, commit-overlay entries, dirty logs).
 	#[cfg(parity_db_verif)]
